@@ -1,20 +1,17 @@
-"""Per-property configuration of ./check: Lean modules + property theorems to audit, correspondence channels
-(harness channel name, Lean driver executable), generated tables, trusted-base additions."""
+"""Collects per-property configuration from checks/props/Cxx.py (each defines PROP and META).
 
-PROPS = {
-    "C13": {
-        "modules": ["IdenaModel.Props.C13"],
-        "theorems": [
-            "IdenaModel.Store.overlay_refines",
-            "IdenaModel.Store.iter_eq",
-            "IdenaModel.Store.overlay_perm_unchanged",
-            "IdenaModel.Store.overlay_perm_unchanged_run",
-            "IdenaModel.Store.overlay_as_found_counterexample",
-        ],
-        "channels": [{"name": "C13", "exe": "oracle_c13"}],
-        "trusted_base": [
-            "tm-db MemDB (third party) modelled as a strictly sorted association list; its argument checks (empty key, nil value, empty bound) are mirrored in the Lean driver glue, not in the theorem",
-            "byte-string keys embedded order-preservingly into Nat by the driver (keys <= 8 bytes)"],
-        "assumptions": ["sequential use of one view (the Go type has a mutex only around nothing; concurrency is out of the model)"],
-    },
-}
+PROP keys: modules (Lean modules holding the property theorems), theorems (fully qualified names audited with
+#print axioms), channels ([{name, exe}] harness channel + Lean driver executable; exe None = oracle-only channel),
+generated ([{module, extractor}] Lean tables regenerated from /repo), shim_tags (extra shim tags to include in the
+overlay besides `common` and the property's own tag), trusted_base, assumptions, level.
+META keys: text, design_ref, note, technique (for MANIFEST.json)."""
+import glob, importlib.util, os
+
+PROPS, META = {}, {}
+for f in sorted(glob.glob(os.path.join(os.path.dirname(os.path.abspath(__file__)), "props", "C*.py"))):
+    pid = os.path.basename(f)[:-3]
+    spec = importlib.util.spec_from_file_location("prop_" + pid, f)
+    m = importlib.util.module_from_spec(spec)
+    spec.loader.exec_module(m)
+    PROPS[pid] = m.PROP
+    META[pid] = m.META
